@@ -1,16 +1,21 @@
 """C01 — SELECT results equal SQL bag semantics (composed queries vs. the reference model)."""
 from vf import qcheck
 
-def run(chk):
+def workload(chk):
     thorough = chk.tier == "thorough"
     n_dbs, per = (600, 40) if thorough else (100, 35)
+    return qcheck.gen_workload(chk.rng, n_dbs, per, id_prefix="c01-", chk=chk)
+
+
+def run(chk):
+    thorough = chk.tier == "thorough"
     chk.rule = ("random databases (1-4 tables, NULL density/skew/duplicates/empty tables) x type-directed random composed queries "
                 "(joins, grouping sets, DISTINCT, UNION, ORDER BY/LIMIT, CTEs, derived tables, scalar/EXISTS/IN/ANY/ALL subqueries); "
                 "oracle = naive reference interpreter on the same AST; distinct non-trivial = distinct (feature-tag set, database) "
                 "pairs whose result was compared (model gave a definite answer) and was non-empty or empty by a declared rule")
     chk.assumptions = ["the reference interpreter vf/refsql.py (cross-checked against SQLite on the dialect-neutral subset by ./check setup)",
                        "generated integers stay small so that no arithmetic overflow is involved (C12 covers that)"]
-    work = qcheck.gen_workload(chk.rng, n_dbs, per, id_prefix="c01-", chk=chk)
+    work = workload(chk)
     from vf import knowncases
     knowncases.run_known_cases(chk)
     tags_hist = {}
